@@ -209,8 +209,8 @@ impl Check for C12 {
     }
     fn total_cases(&self, tier: Tier) -> u64 {
         match tier {
-            Tier::Quick => 49 * 2 * 8,
-            Tier::Thorough => 49 * 2 * 2000,
+            Tier::Quick => 49 * 2 * 40,
+            Tier::Thorough => 49 * 2 * 20000,
         }
     }
     fn once(&self, ctx: &Ctx, out: &mut Outcome) {
